@@ -25,3 +25,60 @@ Proof.
   repeat match goal with |- context [if ?c then _ else _] => destruct c end; reflexivity.
 Qed.
 
+
+(* ------------------------------------------------------------------ C05: VarInt.WriteToBytes, the whole encoder *)
+(* Gen/Funcs.v returns the number of bytes and the LOG of writes into buf; replayed on a 5-byte buffer the
+   first n bytes are exactly the model's write32, for every value (the model normalises with u32 itself). *)
+Ltac z_lits := repeat match goal with |- context [Zpos ?p] => change (Zpos p) with (Z.of_N (Npos p)) end;
+               change Z0 with (Z.of_N 0%N).
+Ltac z_to_n := repeat (progress rewrite ?zn_land, ?zn_lor, ?zn_shiftl, ?zn_shiftr, ?zn_wrap_u, ?zn_eqb).
+Ltac nat_idx := change (Z.to_nat (Z.of_N 0)) with 0%nat; change (Z.to_nat (Z.of_N 1)) with 1%nat;
+  change (Z.to_nat (Z.of_N 2)) with 2%nat; change (Z.to_nat (Z.of_N 3)) with 3%nat;
+  change (Z.to_nat (Z.of_N 4)) with 4%nat; change (Z.to_nat (Z.of_N 5)) with 5%nat.
+
+Lemma shr_byte (x k : N) : ((N.shiftr x (8 * k)) mod 2 ^ 8 = (x / 256 ^ k) mod 256)%N.
+Proof. rewrite N.shiftr_div_pow2. rewrite N.pow_mul_r. reflexivity. Qed.
+
+Lemma g_lt y : (N.lor (N.land y 127) 128 < 256)%N.
+Proof. rewrite grp0_spec. pose proof (N.mod_lt y 128 ltac:(lia)). lia. Qed.
+Lemma shl_small a k : (a < 256 -> k <= 24 -> (N.shiftl a k) mod 2 ^ 32 = N.shiftl a k)%N.
+Proof.
+  intros Ha Hk. apply N.mod_small. rewrite N.shiftl_mul_pow2.
+  assert (2 ^ k <= 2 ^ 24)%N by (apply N.pow_le_mono_r; lia).
+  change (2 ^ 32)%N with (256 * 2 ^ 24)%N. nia.
+Qed.
+
+Ltac pow_lits := change (2 ^ 8)%N with 256%N; change (2 ^ 16)%N with 65536%N; change (2 ^ 24)%N with 16777216%N;
+  change (2 ^ 32)%N with 4294967296%N; change (2 ^ 0)%N with 1%N.
+Ltac bytes_eq :=
+  repeat match goal with
+         | |- _ :: _ = _ :: _ => f_equal
+         | |- Z.of_N _ = Z.of_N _ => apply (f_equal Z.of_N)
+         end;
+  try reflexivity; rewrite ?N.shiftr_div_pow2; pow_lits; lia.
+
+Lemma tie_VarInt_WriteToBytes v :
+  let '(n, ws) := packet_VarInt_WriteToBytes v in
+  n = Z.of_N (lenN (C05.write32 v)) /\
+  firstn (Z.to_nat n) (apply_writes ws (repeat 0 5)) = map Z.of_N (C05.write32 v).
+Proof.
+  unfold packet_VarInt_WriteToBytes, C05.write32. cbv zeta.
+  rewrite (wrap_u_as_N 32 v) by lia. change (Z.to_N (v mod 2 ^ 32)) with (u32 v).
+  set (num := u32 v). clearbody num.
+  z_lits. z_to_n. unfold grp.
+  rewrite !shl_small by (first [apply g_lt | lia]).
+  destruct (N.land num 4294967168 =? 0)%N.
+  { split; [reflexivity|]. unfold apply_writes. cbn [app fold_left fst snd]. nat_idx. cbn [repeat set_nth firstn map].
+    bytes_eq. }
+  destruct (N.land num 4294950912 =? 0)%N.
+  { rewrite be2_eq. split; [reflexivity|]. unfold apply_writes. cbn [app fold_left fst snd]. nat_idx. cbn [repeat set_nth firstn map].
+    bytes_eq. }
+  destruct (N.land num 4292870144 =? 0)%N.
+  { rewrite be2_eq. split; [reflexivity|]. unfold apply_writes. cbn [app fold_left fst snd]. nat_idx. cbn [repeat set_nth firstn map app].
+    bytes_eq. }
+  destruct (N.land num 4026531840 =? 0)%N.
+  { rewrite be4_eq. split; [reflexivity|]. unfold apply_writes. cbn [app fold_left fst snd]. nat_idx. cbn [repeat set_nth firstn map].
+    bytes_eq. }
+  rewrite be4_eq. split; [reflexivity|]. unfold apply_writes. cbn [app fold_left fst snd]. nat_idx. cbn [repeat set_nth firstn map app].
+  bytes_eq.
+Qed.
